@@ -72,6 +72,8 @@ def series_transformers():
     add("hampel", lambda: HampelFilter(window_length=5), missing=True)
     for m in ("drift", "linear", "nearest", "mean", "median", "ffill", "bfill"):
         add("imputer_" + m, (lambda mm: lambda: Imputer(method=mm))(m), missing=True)
+    add("imputer_placeholder", lambda: Imputer(method="mean", missing_values=-999.0), missing=True)
+    L[-1]["placeholder"] = -999.0
     add("imputer_constant", lambda: Imputer(method="constant", value=7.0), missing=True)
     add("imputer_random", lambda: Imputer(method="random", random_state=3), missing=True)
     return L
